@@ -45,6 +45,8 @@ type sinkWriter struct {
 	x     *gosim.Exec
 	name  string
 	lines []string
+	// refuseEmptySource: SetSource("") fails (a sink that validates its source, as the logr-based loggers do)
+	refuseEmptySource bool
 }
 
 func (s *sinkWriter) Write(p []byte) (int, error) {
@@ -52,8 +54,13 @@ func (s *sinkWriter) Write(p []byte) (int, error) {
 	s.lines = append(s.lines, string(p))
 	return len(p), nil
 }
-func (s *sinkWriter) Close() error           { return nil }
-func (s *sinkWriter) SetSource(string) error { return nil }
+func (s *sinkWriter) Close() error { return nil }
+func (s *sinkWriter) SetSource(src string) error {
+	if s.refuseEmptySource && src == "" {
+		return fmt.Errorf("missing source")
+	}
+	return nil
+}
 
 // failingWriter is a member that cannot take the message: it reports an error, or a short write without error.
 type failingWriter struct {
@@ -78,28 +85,38 @@ type recLogger struct {
 	msgs []string
 }
 
-func (r *recLogger) Close() error                  { return nil }
-func (r *recLogger) Check() error                  { return nil }
-func (r *recLogger) SetLogSource(string) error     { r.x.Gate(0, "member "+r.name+".SetLogSource"); return nil }
-func (r *recLogger) SetLoggerSource(string) error  { return nil }
-func (r *recLogger) Log(o ...interface{})          { r.x.Gate(0, "member "+r.name+".Log"); r.msgs = append(r.msgs, "O:"+fmt.Sprint(o...)) }
-func (r *recLogger) LogError(o ...interface{})     { r.x.Gate(0, "member "+r.name+".LogError"); r.msgs = append(r.msgs, "E:"+fmt.Sprint(o...)) }
+func (r *recLogger) Close() error { return nil }
+func (r *recLogger) Check() error { return nil }
+func (r *recLogger) SetLogSource(string) error {
+	r.x.Gate(0, "member "+r.name+".SetLogSource")
+	return nil
+}
+func (r *recLogger) SetLoggerSource(string) error { return nil }
+func (r *recLogger) Log(o ...interface{}) {
+	r.x.Gate(0, "member "+r.name+".Log")
+	r.msgs = append(r.msgs, "O:"+fmt.Sprint(o...))
+}
+func (r *recLogger) LogError(o ...interface{}) {
+	r.x.Gate(0, "member "+r.name+".LogError")
+	r.msgs = append(r.msgs, "E:"+fmt.Sprint(o...))
+}
 
 // ---- scenarios ----------------------------------------------------------------------------------------
 
 type scenario struct {
-	Name   string
-	Family string // string | multiple | writers | json | async
-	Plain  bool
-	Calls  int // calls per producer
-	Prod   int // producers
-	Ring   int
-	Member int // initial members of a composite
-	Combined bool
-	SameStream bool
-	Appenders  int // concurrent Append calls (default 1)
-	FirstFails string // writers: a member placed before the others fails every write ("error") or writes short ("short")
-	Bound  int
+	Name          string
+	Family        string // string | multiple | writers | json | async
+	Plain         bool
+	Calls         int // calls per producer
+	Prod          int // producers
+	Ring          int
+	Member        int // initial members of a composite
+	Combined      bool
+	SameStream    bool
+	Appenders     int    // concurrent Append calls (default 1)
+	RefusedSource bool   // async: a producer calls SetLogSource("") between its messages and the sinks refuse an empty source
+	FirstFails    string // writers: a member placed before the others fails every write ("error") or writes short ("short")
+	Bound         int
 }
 
 type world struct {
@@ -452,7 +469,7 @@ func bodyJSON(x *gosim.Exec, w *world, sc scenario) {
 var droppedRe = regexp.MustCompile(`Logger dropped (\d+) messages`)
 
 func bodyAsync(x *gosim.Exec, w *world, sc scenario) {
-	out, errS := &sinkWriter{x: x, name: "out"}, &sinkWriter{x: x, name: "err"}
+	out, errS := &sinkWriter{x: x, name: "out", refuseEmptySource: sc.RefusedSource}, &sinkWriter{x: x, name: "err", refuseEmptySource: sc.RefusedSource}
 	dropped := &recLogger{x: x, name: "dropped"}
 	l, err := logs.NewAsynchronousLoggers(out, errS, sc.Ring, time.Millisecond, "lsrc", "src", dropped)
 	if err != nil {
@@ -471,6 +488,9 @@ func bodyAsync(x *gosim.Exec, w *world, sc scenario) {
 			defer func() { done <- struct{}{} }()
 			for c := 0; c < sc.Calls; c++ {
 				x.Gate(0, fmt.Sprintf("p%d: Log %d", p, c))
+				if sc.RefusedSource && p == 0 {
+					_ = l.SetLogSource("") // refused by the sinks: an error for this caller, nothing else
+				}
 				l.Log(fmt.Sprintf("msg-p%d-%d", p, c))
 			}
 		})
@@ -532,6 +552,7 @@ func scenarios() []scenario {
 	for _, ring := range []int{1, 2, 4} {
 		add(scenario{Name: fmt.Sprintf("async/ring=%d/2 producers x 2", ring), Family: "async", Ring: ring, Prod: 2, Calls: 2, Bound: 2})
 	}
+	add(scenario{Name: "async/ring=4/2 producers x 2, the sinks refuse an empty source", Family: "async", Ring: 4, Prod: 2, Calls: 2, Bound: 1, RefusedSource: true})
 	if ev.Thorough() {
 		add(scenario{Name: "string/plain/3 producers x 1", Family: "string", Plain: true, Prod: 3, Calls: 1, Bound: 3})
 		add(scenario{Name: "string/prefixed/2 producers x 2 (one per stream)", Family: "string", Prod: 2, Calls: 2, Bound: 3})
